@@ -17,7 +17,20 @@ func MakeVirtualHostBucketAddressingMiddleware(baseEndpoint string, next http.Ha
 		if hostname != baseEndpoint && strings.HasSuffix(hostname, endpointSuffix) {
 			bucket := strings.TrimSuffix(hostname, endpointSuffix)
 			if bucket != "" {
-				r.URL.Path = strings.TrimSuffix("/"+bucket+r.URL.Path, "/")
+				// "/" addresses the bucket itself; anything else is an object key and
+				// must be kept verbatim ("folder/" and "folder" are different keys).
+				// RawPath is prefixed as well so that an encoded key (e.g. "%2F") is
+				// routed exactly like the same key in a path-style request.
+				bucketPath := "/" + bucket
+				if r.URL.Path == "" || r.URL.Path == "/" {
+					r.URL.Path = bucketPath
+					r.URL.RawPath = ""
+				} else {
+					r.URL.Path = bucketPath + r.URL.Path
+					if r.URL.RawPath != "" {
+						r.URL.RawPath = bucketPath + r.URL.RawPath
+					}
+				}
 			}
 		}
 		next.ServeHTTP(w, r)
